@@ -8,7 +8,7 @@ git apply "$patch" || { echo "patch does not apply"; exit 2; }
 cd /verif
 rc=0
 for p in "$@"; do
-  ./bin/check "$p" quick 2>&1 | grep -E '^(violation:|VIOLATION|KNOWN|C[0-9]+:|HARNESS)' | cut -c1-400
+  VERIF_NO_EVIDENCE=1 ./bin/check "$p" quick 2>&1 | grep -E '^(violation:|VIOLATION|KNOWN|C[0-9]+:|HARNESS)' | cut -c1-400
 done
 git -C /repo checkout -- .
 git -C /repo status --porcelain
